@@ -110,6 +110,23 @@ fn program_of(case: &Case) -> Vec<El> {
             els.push(El::Op(*op));
             els
         }
+        Case::Cond { cond, code, shape, below } if *shape == 17 || *shape == 18 => {
+            // OP_RETURN inside the first branch, then an OP_RETURN at the top level, then a conditional: balanced (17) or
+            // never closed (18). When the first OP_RETURN ran, the second one is not executed and what follows it still has
+            // to balance; when it did not, the second one ends the script and nothing behind it matters.
+            let mut els: Vec<El> = below.iter().map(|b| push_el(&alpha(*b))).collect();
+            els.push(push_el(&alpha(*cond)));
+            els.push(El::If { code: *code, pass: vec![El::Op(0x52), El::Op(106)], fail: Some(vec![El::Op(0x53)]) });
+            els.push(El::Op(106));
+            els.push(El::Op(0x51));
+            if *shape == 17 {
+                els.push(El::If { code: 99, pass: vec![El::Op(0x55)], fail: None });
+                els.push(El::Op(0x58));
+            } else {
+                els.push(El::Op(99));
+            }
+            els
+        }
         Case::Cond { cond, code, shape, below } if *shape == 16 => {
             // OP_RETURN in the first branch, followed there by a conditional that is never run (but has to be understood)
             let mut els: Vec<El> = below.iter().map(|b| push_el(&alpha(*b))).collect();
@@ -371,6 +388,19 @@ pub fn build_program(genes: &[Gene]) -> Vec<El> {
             }
         }
         if stop || model.returned {
+            if model.returned {
+                // what stands behind an executed OP_RETURN: ignored when that OP_RETURN was at the top level, checked for
+                // balance (through a later OP_RETURN too) when it was inside a branch
+                let tail_if = El::If { code: if g.a & 1 == 0 { 99 } else { 100 }, pass: vec![El::Op(0x55)], fail: if g.a & 2 == 0 { None } else { Some(vec![El::Op(0x56)]) } };
+                match (g.a >> 2) % 8 {
+                    0 => program.extend([El::Op(106), El::Op(0x51), tail_if]),
+                    1 => program.extend([El::Op(0x51), tail_if.clone(), El::Op(106), El::Op(0), tail_if]),
+                    2 => program.extend([El::Op(106), El::Op(104)]),
+                    3 => program.extend([El::Op(106), El::Op(0x51), El::Op(99)]),
+                    4 => program.extend([El::Op(0x51), tail_if]),
+                    _ => {}
+                }
+            }
             break;
         }
         // forget what the model spliced: the program text is what we return
@@ -592,7 +622,7 @@ impl Property for C14 {
         vec![
             "every modelled opcode x every stack of depth 0..=arity+1 over the 18-value alphabet (4 values when arity >= 4)".into(),
             "nullary/unary opcodes x 0..=2 alt-stack items".into(),
-            "IF/NOTIF x 17 branch shapes, each through all four construction routes (incl. an OP_RETURN followed by a conditional inside a branch, a well-formed conditional before a top-level OP_RETURN with an unclosed OP_IF behind it, an OP_RETURN in either branch followed by a stray OP_ENDIF, a second OP_ELSE at this level or inside a nested conditional of the taken / the skipped branch, a stray OP_ELSE before and a stray OP_ENDIF after the conditional) x 18 condition values x {0,1} items below".into(),
+            "IF/NOTIF x 19 branch shapes, each through all four construction routes (incl. an OP_RETURN followed by a conditional inside a branch, an OP_RETURN inside a branch followed by a top-level OP_RETURN and a closed or unclosed conditional, a well-formed conditional before a top-level OP_RETURN with an unclosed OP_IF behind it, an OP_RETURN in either branch followed by a stray OP_ENDIF, a second OP_ELSE at this level or inside a nested conditional of the taken / the skipped branch, a stray OP_ELSE before and a stray OP_ENDIF after the conditional) x 18 condition values x {0,1} items below".into(),
             "every unary numeric opcode on +/-(2^e + d), e in {0,7,8,15,16,23,24,31,32,39,63,64,127}, d in -2..=2, minimal and padded; every binary numeric opcode on pairs over e in {7,8,15,16,23,24,31,32,63,64}, d in -1..=1".into(),
             "PICK / ROLL / SPLIT / NUM2BIN / LSHIFT / RSHIFT x stacks of 1..4 items x 30 operand values from -2^64 to 2^100 x 0, 1, 2, 4 and 9 bytes of padding (operands of up to 22 bytes)".into(),
             "OP_SIZE / OP_DEPTH / byte-string opcodes on items of 127..65536 bytes (OP_SIZE also 8 MiB -/+ 1) and above 126..257 items".into(),
@@ -703,7 +733,7 @@ impl Property for C14 {
             }
         }
         for code in [99u8, 100] {
-            for shape in 0..17u8 {
+            for shape in 0..19u8 {
                 for cond in 0..ALPHABET.len() as u8 {
                     for below in [vec![], vec![5u8]] {
                         idx += 1;
